@@ -314,10 +314,10 @@ LandmarkManager only ever reaches `_export` when the explicit extension (if any)
 suffix is `.ljson` -/
 theorem landmark_multi_reaches_export (env : Env) (cwd : Path) (m : List (String × String)) (obj : ExObj) (fp : Fp)
     (ext : OStr) (ow : Bool) (fs : FSb) (hm : obj.hasNPoints = false) (hp : fp.isStrOrPath = true) :
-    (∃ x, exportLandmarkFileSpec env cwd m obj fp ext ow fs = (.error x, fs)) ∨
+    (∃ x, exportLandmarkFileSpecCoded env cwd m obj fp ext ow fs = (.error x, fs)) ∨
     (∃ e, normalizeExt ext = .ok e ∧ (e = none ∨ e = ostr ".ljson") ∧ fp.toPath.suffix = ostr ".ljson" ∧
-      exportLandmarkFileSpec env cwd m obj fp ext ow fs = exportSpec env cwd obj fp m e ow none fs) := by
-  unfold exportLandmarkFileSpec
+      exportLandmarkFileSpecCoded env cwd m obj fp ext ow fs = exportSpec env cwd obj fp m e ow none fs) := by
+  unfold exportLandmarkFileSpecCoded
   cases hn : normalizeExt ext with
   | error x => exact Or.inl ⟨x, rfl⟩
   | ok e =>
@@ -334,11 +334,11 @@ theorem landmark_multi_reaches_export (env : Env) (cwd : Path) (m : List (String
 
 theorem landmark_refused (env : Env) (cwd : Path) (m : List (String × String)) (obj : ExObj) (fp : Fp) (ext : OStr)
     (fs : FSb) (hp : fp.isStrOrPath = true) :
-    (exportLandmarkFileSpec env cwd m obj fp ext false fs).2 (targetKey env cwd fp) = fs (targetKey env cwd fp) ∨
+    (exportLandmarkFileSpecCoded env cwd m obj fp ext false fs).2 (targetKey env cwd fp) = fs (targetKey env cwd fp) ∨
       (fs (targetKey env cwd fp)).isSome = false := by
   by_cases h : (fs (targetKey env cwd fp)).isSome = true
   · left
-    unfold exportLandmarkFileSpec
+    unfold exportLandmarkFileSpecCoded
     split
     · rfl
     · split
@@ -349,9 +349,9 @@ theorem landmark_refused (env : Env) (cwd : Path) (m : List (String × String)) 
 /-- PROPERTY (guard, `export_landmark_file`): an existing target without `overwrite` is never changed, and nothing else is -/
 theorem landmark_guard (env : Env) (cwd : Path) (m : List (String × String)) (obj : ExObj) (fp : Fp) (ext : OStr)
     (fs : FSb) (hp : fp.isStrOrPath = true) (h : (fs (targetKey env cwd fp)).isSome = true) :
-    (exportLandmarkFileSpec env cwd m obj fp ext false fs).2 = fs ∧
-      ∃ x, (exportLandmarkFileSpec env cwd m obj fp ext false fs).1 = .error x := by
-  unfold exportLandmarkFileSpec
+    (exportLandmarkFileSpecCoded env cwd m obj fp ext false fs).2 = fs ∧
+      ∃ x, (exportLandmarkFileSpecCoded env cwd m obj fp ext false fs).1 = .error x := by
+  unfold exportLandmarkFileSpecCoded
   split
   · exact ⟨rfl, _, rfl⟩
   · split
@@ -491,13 +491,62 @@ theorem export_reader_agrees (ex im : List (String × String)) (b : Bool) (hok :
 
 theorem landmark_frame (env : Env) (cwd : Path) (m : List (String × String)) (obj : ExObj) (fp : Fp) (ext : OStr)
     (ow : Bool) (fs : FSb) (hp : fp.isStrOrPath = true) (q : Path) (hq : q ≠ targetKey env cwd fp) :
-    (exportLandmarkFileSpec env cwd m obj fp ext ow fs).2 q = fs q := by
-  unfold exportLandmarkFileSpec
+    (exportLandmarkFileSpecCoded env cwd m obj fp ext ow fs).2 q = fs q := by
+  unfold exportLandmarkFileSpecCoded
   split
   · rfl
   · split
     · rfl
     · exact export_frame env cwd obj fp m _ ow none fs hp q hq
+
+/-! ### `export_landmark_file` with the guard first (the repair) and as coded -/
+
+/-- PROPERTY (guard, repaired `export_landmark_file`).  With the guard first, an existing target without `overwrite`
+is answered with OverwriteError — whatever the object (a shape, a dictionary, a LandmarkManager), the explicit extension
+and the file name — and the whole file system is as before. -/
+theorem landmark_guard_first (env : Env) (cwd : Path) (m : List (String × String)) (obj : ExObj) (fp : Fp) (ext : OStr)
+    (fs : FSb) (hp : fp.isStrOrPath = true) (h : (fs (targetKey env cwd fp)).isSome = true) :
+    exportLandmarkFileSpec env cwd m obj fp ext false fs = (.error .overwriteError, fs) := by
+  unfold exportLandmarkFileSpec validateFilepathSpec
+  unfold targetKey at h
+  simp [hp, h]
+
+/-- … whereas the code as it stood refuses a dictionary aimed at an existing `x.pts` with a plain ValueError (the
+dictionary check ran before the guard): refutation by witness, for every file system -/
+theorem landmark_coded_value_error (env : Env) (cwd : Path) (m : List (String × String)) (c : Nat) (fs : FSb) :
+    exportLandmarkFileSpecCoded env cwd m ⟨c, false, true⟩ (.str "x.pts".toList) none false fs = (.error .valueError, fs) := by
+  unfold exportLandmarkFileSpecCoded
+  have hs : (Fp.str "x.pts".toList).toPath.suffix ≠ ostr ".ljson" := by decide
+  simp only [normalizeExt, Fp.isStrOrPath, Fp.isStr, Bool.true_or, true_and]
+  rw [if_pos (Or.inr hs)]
+
+theorem landmarkV_guard (gf : Bool) (env : Env) (cwd : Path) (m : List (String × String)) (obj : ExObj) (fp : Fp)
+    (ext : OStr) (fs : FSb) (hp : fp.isStrOrPath = true) (h : (fs (targetKey env cwd fp)).isSome = true) :
+    (exportLandmarkFileSpecV gf env cwd m obj fp ext false fs).2 = fs ∧
+      ∃ x, (exportLandmarkFileSpecV gf env cwd m obj fp ext false fs).1 = .error x := by
+  cases gf with
+  | false => exact landmark_guard env cwd m obj fp ext fs hp h
+  | true =>
+    simp only [exportLandmarkFileSpecV, ↓reduceIte]
+    rw [landmark_guard_first env cwd m obj fp ext fs hp h]
+    exact ⟨rfl, _, rfl⟩
+
+theorem landmarkV_frame (gf : Bool) (env : Env) (cwd : Path) (m : List (String × String)) (obj : ExObj) (fp : Fp)
+    (ext : OStr) (ow : Bool) (fs : FSb) (hp : fp.isStrOrPath = true) (q : Path) (hq : q ≠ targetKey env cwd fp) :
+    (exportLandmarkFileSpecV gf env cwd m obj fp ext ow fs).2 q = fs q := by
+  cases gf with
+  | false => exact landmark_frame env cwd m obj fp ext ow fs hp q hq
+  | true =>
+    simp only [exportLandmarkFileSpecV, ↓reduceIte]
+    unfold exportLandmarkFileSpec validateFilepathSpec
+    simp only [hp, ↓reduceIte]
+    split
+    · rename_i x fs' hv
+      split at hv <;> simp_all
+    · rename_i p fs' hv
+      have : fs' = fs := by split at hv <;> simp_all
+      subst this
+      exact landmark_frame env cwd m obj fp ext ow fs' hp q hq
 
 /-! ### any history of exports through the public entry points -/
 
@@ -524,26 +573,26 @@ def XOp.isLandmark : XOp → Bool
   | .landmark .. => true
   | _ => false
 
-def XOp.run (env : Env) (cwd : Path) : XOp → IOx Unit
+def XOp.run (gf : Bool) (env : Env) (cwd : Path) : XOp → IOx Unit
   | .image m obj fp ext ow => exportImageSpec env cwd m obj fp ext ow
-  | .landmark m obj fp ext ow => exportLandmarkFileSpec env cwd m obj fp ext ow
+  | .landmark m obj fp ext ow => exportLandmarkFileSpecV gf env cwd m obj fp ext ow
   | .pickle m obj fp ow protocol => exportPickleSpec env cwd m obj fp ow protocol
   | .video m obj fp ow fps kwargs => exportVideoSpec env cwd m obj fp ow fps kwargs
 
-def runX (env : Env) (cwd : Path) : FSb → List XOp → List (Except Exc Unit) × FSb
+def runX (gf : Bool) (env : Env) (cwd : Path) : FSb → List XOp → List (Except Exc Unit) × FSb
   | fs, [] => ([], fs)
   | fs, op :: ops =>
-    let r := op.run env cwd fs
-    let rest := runX env cwd r.2 ops
+    let r := op.run gf env cwd fs
+    let rest := runX gf env cwd r.2 ops
     (r.1 :: rest.1, rest.2)
 
 /-- one export aimed elsewhere, or aimed here without `overwrite`, keeps an existing file; in the second case it
 answers with an error — OverwriteError, except that `export_landmark_file` may reject the call even earlier -/
-theorem xop_keeps (env : Env) (cwd : Path) (op : XOp) (fs : FSb) (p : Path) (v : Blob) (hv : fs p = some v)
+theorem xop_keeps (gf : Bool) (env : Env) (cwd : Path) (op : XOp) (fs : FSb) (p : Path) (v : Blob) (hv : fs p = some v)
     (hp : op.fp.isStrOrPath = true) (hno : targetKey env cwd op.fp = p → op.ow = false) :
-    (op.run env cwd fs).2 p = some v ∧
+    (op.run gf env cwd fs).2 p = some v ∧
     (targetKey env cwd op.fp = p →
-      (op.run env cwd fs).1 = .error .overwriteError ∨ (op.isLandmark = true ∧ ∃ e, (op.run env cwd fs).1 = .error e)) := by
+      (op.run gf env cwd fs).1 = .error .overwriteError ∨ (op.isLandmark = true ∧ ∃ e, (op.run gf env cwd fs).1 = .error e)) := by
   by_cases ht : targetKey env cwd op.fp = p
   · have how := hno ht
     have hex : (fs (targetKey env cwd op.fp)).isSome = true := by rw [ht, hv]; rfl
@@ -556,7 +605,7 @@ theorem xop_keeps (env : Env) (cwd : Path) (op : XOp) (fs : FSb) (p : Path) (v :
     | landmark m obj fp ext ow =>
       simp only [XOp.fp, XOp.ow] at hp how hex ht
       subst how
-      obtain ⟨h1, e, h2⟩ := landmark_guard env cwd m obj fp ext fs hp hex
+      obtain ⟨h1, e, h2⟩ := landmarkV_guard gf env cwd m obj fp ext fs hp hex
       simp only [XOp.run, h1]
       exact ⟨hv, fun _ => Or.inr ⟨rfl, e, h2⟩⟩
     | pickle m obj fp ow protocol =>
@@ -579,7 +628,7 @@ theorem xop_keeps (env : Env) (cwd : Path) (op : XOp) (fs : FSb) (p : Path) (v :
     | landmark m obj fp ext ow =>
       simp only [XOp.fp] at hp hq
       simp only [XOp.run]
-      rw [landmark_frame env cwd m obj fp ext ow fs hp p hq]; exact hv
+      rw [landmarkV_frame gf env cwd m obj fp ext ow fs hp p hq]; exact hv
     | pickle m obj fp ow protocol =>
       simp only [XOp.fp] at hp hq
       simp only [XOp.run]
@@ -594,11 +643,11 @@ export_landmark_file, export_pickle, export_video with str / Path arguments of a
 extensions, any objects.  A file that exists and is never targeted with `overwrite=True` holds the very same content at
 the end, and every call that targeted it was answered with OverwriteError (export_landmark_file possibly with the
 ValueError of its own check, which comes first). -/
-theorem history_never_clobbers (env : Env) (cwd : Path) (p : Path) (v : Blob) :
+theorem history_never_clobbers (gf : Bool) (env : Env) (cwd : Path) (p : Path) (v : Blob) :
     ∀ (ops : List XOp) (fs : FSb), fs p = some v →
       (∀ op ∈ ops, op.fp.isStrOrPath = true ∧ (targetKey env cwd op.fp = p → op.ow = false)) →
-      (runX env cwd fs ops).2 p = some v ∧
-      ∀ x ∈ ops.zip (runX env cwd fs ops).1, targetKey env cwd x.1.fp = p →
+      (runX gf env cwd fs ops).2 p = some v ∧
+      ∀ x ∈ ops.zip (runX gf env cwd fs ops).1, targetKey env cwd x.1.fp = p →
         x.2 = .error .overwriteError ∨ (x.1.isLandmark = true ∧ ∃ e, x.2 = .error e) := by
   intro ops
   induction ops with
@@ -606,8 +655,8 @@ theorem history_never_clobbers (env : Env) (cwd : Path) (p : Path) (v : Blob) :
   | cons op t ih =>
     intro fs hv hall
     obtain ⟨hp, hno⟩ := hall op (by simp)
-    obtain ⟨hk, hout⟩ := xop_keeps env cwd op fs p v hv hp hno
-    obtain ⟨ih1, ih2⟩ := ih (op.run env cwd fs).2 hk (fun o ho => hall o (by simp [ho]))
+    obtain ⟨hk, hout⟩ := xop_keeps gf env cwd op fs p v hv hp hno
+    obtain ⟨ih1, ih2⟩ := ih (op.run gf env cwd fs).2 hk (fun o ho => hall o (by simp [ho]))
     refine ⟨ih1, ?_⟩
     intro x hx ht
     simp only [runX, List.zip_cons_cons, List.mem_cons] at hx
@@ -616,20 +665,20 @@ theorem history_never_clobbers (env : Env) (cwd : Path) (p : Path) (v : Blob) :
     · exact ih2 x hx ht
 
 /-- a path that no call of the history targets is not touched -/
-theorem history_frame (env : Env) (cwd : Path) (q : Path) :
+theorem history_frame (gf : Bool) (env : Env) (cwd : Path) (q : Path) :
     ∀ (ops : List XOp) (fs : FSb), (∀ op ∈ ops, op.fp.isStrOrPath = true ∧ targetKey env cwd op.fp ≠ q) →
-      (runX env cwd fs ops).2 q = fs q := by
+      (runX gf env cwd fs ops).2 q = fs q := by
   intro ops
   induction ops with
   | nil => intro fs _; rfl
   | cons op t ih =>
     intro fs hall
     obtain ⟨hp, hne⟩ := hall op (by simp)
-    have h1 : (op.run env cwd fs).2 q = fs q := by
+    have h1 : (op.run gf env cwd fs).2 q = fs q := by
       have hq : q ≠ targetKey env cwd op.fp := fun h => hne h.symm
       cases op with
       | image m obj fp ext ow => exact export_frame env cwd obj fp m ext ow none fs hp q hq
-      | landmark m obj fp ext ow => exact landmark_frame env cwd m obj fp ext ow fs hp q hq
+      | landmark m obj fp ext ow => exact landmarkV_frame gf env cwd m obj fp ext ow fs hp q hq
       | pickle m obj fp ow protocol => exact pickle_frame env cwd m obj fp ow protocol fs hp q hq
       | video m obj fp ow fps kwargs => exact video_frame env cwd m obj fp ow fps kwargs fs hp q hq
     simp only [runX]
